@@ -127,6 +127,15 @@ int sqfs_meta_reader_seek(sqfs_meta_reader_t *m, sqfs_u64 block_start,
 	if ((block_start + 2 + size) > m->limit)
 		return SQFS_ERROR_OUT_OF_BOUNDS;
 
+	/*
+	 * The buffer holding the cached block gets overwritten from here on.
+	 * Forget the old block now, so that a failure further down cannot
+	 * leave the tag of the old block on the data of the new one.
+	 */
+	m->block_offset = 0xFFFFFFFFFFFFFFFFUL;
+	m->data_used = 0;
+	m->offset = 0;
+
 	err = m->file->read_at(m->file, block_start + 2, m->data, size);
 	if (err)
 		return err;
